@@ -4,7 +4,7 @@ CONSTANTS
   Vias = {"text"}
   N = 5
   MaxCalls = 2
-  ArgVals = {1, 2, 4, 5, 6}
+  ArgVals = {1, 2, 3, 5, 6}
   MaxArgs = 2
   OptSets <- OptSetsMC
 INVARIANTS Commutes Idempotent Ascending
